@@ -130,24 +130,29 @@ func (c10RulesFetcher) FetchSourcePackage(ctx context.Context, sourceType string
 	envMkdir(targetDir+"/c", 0755, 1000)
 	if verif.Bool("rules.via-link") {
 		// the rule file is itself an in-package link to a regular file: its rules apply all the same
-		envWriteFile(targetDir+"/c/rules", 0644, 1000, "*.log\n")
+		envWriteFile(targetDir+"/c/rules", 0644, 1000, "*.log\n/top.txt\ng\nd/\n")
 		envSymlink(targetDir+"/.terraformignore", "c/rules", 1000)
 	} else {
-		envWriteFile(targetDir+"/.terraformignore", 0644, 1000, "*.log\n")
+		envWriteFile(targetDir+"/.terraformignore", 0644, 1000, "*.log\n/top.txt\ng\nd/\n")
 	}
+	envWriteFile(targetDir+"/top.txt", 0644, 1000, "T") // excluded by the root-anchored rule
 	envWriteFile(targetDir+"/c/a.log", 0644, 1000, "A")
 	envWriteFile(targetDir+"/c/k", 0644, 1000, "K")
 	envWriteFile(targetDir+"/c/m.log", 0644, 1000, "M")
+	envWriteFile(targetDir+"/c/g", 0644, 1000, "G") // excluded, and nameable by the symbolic link target
+	envMkdir(targetDir+"/c/d", 0755, 1000)          // an excluded directory with a file
+	envWriteFile(targetDir+"/c/d/f", 0644, 1000, "DF")
 	t := c10SymPath("target", verif.Param("sLink", 3))
 	lname := []string{"/c/z", "/c/0"}[verif.Choose("link.name", 2)] // walked after / before the excluded entries
 	envSymlink(targetDir+lname, t, 1000)
 	real := envRealPath(targetDir + lname)
-	c10Bad = real == "" || !(real == targetDir || wHasPrefix(real, targetDir+"/"))
+	realRoot := envRealPath(targetDir) // the target directory may itself be reached through a link
+	c10Bad = real == "" || !(real == realRoot || wHasPrefix(real, realRoot+"/"))
 	if !c10Bad {
 		if k := envLstatKind(real); k != envFile && k != envDir {
 			c10Bad = true
 		}
-		if wHasPrefix(real, targetDir+"/c/a.log") || wHasPrefix(real, targetDir+"/c/m.log") {
+		if wHasPrefix(real, realRoot+"/c/a.log") || wHasPrefix(real, realRoot+"/c/m.log") || real == realRoot+"/c/g" || real == realRoot+"/c/d" || wHasPrefix(real, realRoot+"/c/d/") {
 			c10Bad = true // leads to something the rules remove: dangling in the finished package
 		}
 	}
@@ -158,7 +163,12 @@ func HarnessC10Rules() {
 	wReset(1, 0, 0)
 	envWriteFile("/w/secret", 0600, 100, "X")
 	c10Bad = false
-	b, err := NewBuilder(wTarget, c10RulesFetcher{}, wRegistry{})
+	target := wTarget
+	if verif.Bool("target.via-link") { // the target directory is reached through a symlink
+		envSymlink("/w/lt", "t", 100)
+		target = "/w/lt"
+	}
+	b, err := NewBuilder(target, c10RulesFetcher{}, wRegistry{})
 	verif.Assume(err == nil)
 	ctx := wCtx{wTracer()}
 	envBaseline()
@@ -177,11 +187,12 @@ func HarnessC10Rules() {
 	verif.Assert("C10-bad-package-makes-the-build-fail", !c10Bad)
 	dir, _ := bundle.LocalPathForRemoteSource(src)
 	for _, n := range envSnapshot(dir) {
-		verif.Assert("C10-everything-excluded-is-removed", !(len(n.Path) > 4 && n.Path[len(n.Path)-4:] == ".log"))
+		verif.Assert("C10-everything-excluded-is-removed", !(len(n.Path) > 4 && n.Path[len(n.Path)-4:] == ".log") && n.Path != "top.txt" && n.Path != "c/g" && !wHasPrefix(n.Path, "c/d"))
 		if n.Kind == envLink {
 			verif.Reach("link-kept")
 			real := envRealPath(dir + "/" + n.Path)
-			verif.Assert("C10-link-resolves-inside-its-package", real != "" && (real == dir || wHasPrefix(real, dir+"/")))
+			realDir := envRealPath(dir)
+			verif.Assert("C10-link-resolves-inside-its-package", real != "" && (real == realDir || wHasPrefix(real, realDir+"/")))
 		}
 	}
 	verif.Assert("C10-nothing-outside-target-touched", envChangedOutside(wTarget) == "")
